@@ -25,6 +25,10 @@ def short_samples(mode, width=700):
 PROPS["C13"] = dict(
     module="Proofs.Properties.C13",
     theorems=[
+        "Zrnt.Proofs.C13.incremental_deposit_root",
+        "Zrnt.Proofs.C13.incremental_deposit_root_prefix",
+        "Zrnt.Proofs.C13.listRoot_eq_spec",
+        "Zrnt.Proofs.C13.inc_root_eq_depositListRoot",
         "Zrnt.Proofs.C13.genesis_effective_balance",
         "Zrnt.Proofs.C13.genesis_activation",
         "Zrnt.Proofs.C13.topup_no_new_validator",
